@@ -6,7 +6,7 @@ git -C $WT checkout -q -- . ; git -C $WT clean -fdq
 ( cd $WT && PYTHONPATH=$WT JAX_PLATFORMS=cpu timeout 600 /venv/bin/python $D/demo.py > $O/demo_clean.out 2>&1 ); echo "demo_clean_rc=$?" > $O/summary
 if ! git -C $WT apply $D/patch.diff 2> $O/apply.err; then echo "apply=FAILED" >> $O/summary; cat $O/summary; exit 0; fi
 ( cd $WT && PYTHONPATH=$WT JAX_PLATFORMS=cpu timeout 600 /venv/bin/python $D/demo.py > $O/demo_mut.out 2>&1 ); echo "demo_mut_rc=$?" >> $O/summary
-( cd $WT && PYTHONPATH=$WT timeout 1500 /venv/bin/python -m pytest -q -p no:cacheprovider --timeout=900 -q --deselect test/test_decorator.py::test_mlx 2>&1 | tail -1 > $O/pytest.out ); echo "pytest=$(cat $O/pytest.out)" >> $O/summary
+( cd $WT && PYTHONPATH=$WT timeout 1500 /venv/bin/python -m pytest -q -p no:cacheprovider --timeout=900 --deselect test/test_decorator.py::test_mlx 2>&1 | tail -40 > $O/pytest_tail.out ); grep -E "^(FAILED|ERROR)" $O/pytest_tail.out | sort > $O/pytest_failed.out; echo "pytest=$(grep -E '[0-9]+ passed' $O/pytest_tail.out | tail -1) | failing: $(cut -d' ' -f2 $O/pytest_failed.out | tr '\n' ' ')" >> $O/summary
 for Q in $P $EXTRA; do
   ( cd /verif && VERIF_OUT=$O VERIF_REPO=$WT timeout 1500 ./check $Q --tier quick --repo $WT > $O/check_$Q.out 2>&1 ); rc=$?
   echo "check_$Q rc=$rc $(grep -c '^VIOLATION' $O/check_$Q.out) violation-lines; first: $(grep -m1 '^VIOLATION\|^UNDECIDED\|^CHECKER' $O/check_$Q.out | cut -c1-220)" >> $O/summary
